@@ -337,6 +337,9 @@ def _q(x):
     return [n, d]
 
 
+STATS = {}
+
+
 def model_request(c, o):
     if c["kind"] == "pattern":
         return {"p": "C11", "op": "pattern", "signs": c["signs"]}
@@ -348,8 +351,11 @@ def model_request(c, o):
     if c["kind"] == "section" and "segs" in o:
         import trimesh
         T = np.array(meshes()[c["mesh"]].triangles, dtype=np.float64)
+        mm = meshes()[c["mesh"]]
         return {"p": "C11", "op": "section", "normal": [_q(x) for x in o["plane"][0]], "origin": [_q(x) for x in o["plane"][1]],
-                "tol": _q(trimesh.tol.merge), "tris": [[[_q(x) for x in p] for p in t] for t in T]}
+                "tol": _q(trimesh.tol.merge), "tris": [[[_q(x) for x in p] for p in t] for t in T],
+                "verts": [[_q(x) for x in v] for v in np.array(mm.vertices, dtype=np.float64)],
+                "faces": np.array(mm.faces).tolist()}
     return None
 
 
@@ -406,6 +412,26 @@ def compare(c, o, m):
             err = min(np.abs(a - b).max(), np.abs(a - b[::-1]).max())
             if err > 1e-9 * max(1.0, np.abs(a).max()):
                 return f"face {i}: segment endpoints differ: model {a.tolist()} code {b.tolist()}"
+        # global structure: in general position the segment of a face joins the two crossed edges the model names,
+        # and on a closed surface the model's count (two ends per crossed edge) is the theorem's conclusion
+        if m.get("general"):
+            V = np.array(meshes()[c["mesh"]].vertices, dtype=np.float64)
+            for i, es in enumerate(m["seg_edges"]):
+                got = impl.get(i, [])
+                if len(es) not in (0, 2) or (len(es) == 2) != (len(got) == 1):
+                    return f"face {i}: crossed edges {es} but {len(got)} segment(s) from the code"
+                if len(es) == 2:
+                    on = []
+                    for p in np.array(got[0]):
+                        hit = [k for k, (a_, b_) in enumerate(es)
+                               if np.linalg.norm(np.cross(V[b_] - V[a_], p - V[a_])) <= 1e-9 * max(1.0, np.abs(V).max()) ** 2
+                               and -1e-9 <= np.dot(p - V[a_], V[b_] - V[a_]) / np.dot(V[b_] - V[a_], V[b_] - V[a_]) <= 1 + 1e-9]
+                        on.append(hit)
+                    if not ((0 in on[0] and 1 in on[1]) or (1 in on[0] and 0 in on[1])):
+                        return f"face {i}: the code's segment does not join the two crossed edges {es}"
+            if m.get("closed") and not m["ends_twice"]:
+                return "model: a crossed edge of a closed surface is not the end of exactly two segments"
+            STATS["sections_loop_structure_compared"] = STATS.get("sections_loop_structure_compared", 0) + 1
         return None
     if m["segments"] != o["nlines"]:
         return f"mesh_plane on signs {c['signs']}: model emits {m['segments']} segment(s), code {o['nlines']}"
